@@ -126,7 +126,9 @@ def run(ctx):
             bad.append(("replay-unsorted", "replay loop not dominated by list_sorted_log_files", None))
         # `?` on each replay: error aborts (no silent skip of a whole file)
         l = F.fn("WalRecovery::list_sorted_log_files")
-        srt = calls(l, r"slice::(sort|sort_unstable|sort_by|sort_by_key)$", 1)
+        srt = sort_call_sites(F, l)
+        if not srt:
+            raise AnchorMissing("site: a slice sort executed by WalRecovery::list_sorted_log_files (directly or through a crate helper)")
         for x in l.exits():
             # Ok exits must pass the sort; the `?` early exit on read_dir error may bypass
             pass
